@@ -48,8 +48,7 @@ def sweep(rng, n):
 oracle_search = propgen.budgeted([sweep])
 
 
-def oracle_at(unit, case, impl):
-    return None
+oracle_at = propgen.definitional_oracle_at(['adjust_intervals', 'merge_intervals', 'interpolate_intervals', 'boundaries'], 're-expresses the annotation as specified by label_at')
 
 
 def diagnose(b):
